@@ -1,19 +1,222 @@
 import JunoModel.C12.ProofsArith
+import JunoModel.C12.ProofsAbstract
+import JunoModel.C12.ProofsTrace
+import JunoModel.C12.ProofsFuel
+import JunoModel.C12.ProofsRefine
 /-!
 C12 — property theorems (statements only; the proofs are in `Proofs*.lean`).
+
+Layers: `Exec` (`Model.lean`) is the executable transcription of juno's state machine and vote
+counter, compared action-for-action with the real code by the harness. `Abstract`
+(`ModelAbstract.lean`) is the Tendermint algorithm over a global message history with weighted
+validators and a Byzantine set; `agreement` is proved there for every reachable state, i.e. for all
+schedules, timeouts and Byzantine behaviours.
 -/
 namespace Juno.C12.Props
-open Juno.C12
+open Juno.C12 Juno.C12.Abs
 
-/-- Quorum arithmetic on the code's formulas, for ALL total powers `N > 0` (no wrap-around):
-two quorums overlap in more than `f`, a quorum is attainable, `f` is less than a third. -/
+/-! ## thresholds -/
+
+/-- Quorum arithmetic on the code's formulas `f = (N-1)/3`, `q = ceil(2N/3)`, for ALL total powers
+`N > 0` (unbounded naturals): two quorums overlap in more than `f`, a quorum is attainable, `f` is
+less than a third of `N` (so a set of power `f+1` contains a correct validator whenever the faulty
+power is at most `f`). -/
 theorem quorum_intersection (N : Nat) (h : 0 < N) :
     N + fN N < 2 * qN N ∧ qN N ≤ N ∧ 3 * fN N < N :=
   ⟨quorum_intersection_nat N h, qN_le N, (fN_floor N h).1⟩
 
-/-- The 64-bit code computes exactly these formulas as long as `2*N` does not wrap. -/
+/-- The 64-bit code (`fU`, `qU`: Go `uint` arithmetic) computes exactly these formulas as long as
+`2*N` does not wrap. -/
 theorem thresholds_no_wrap (N : Nat) (h0 : 0 < N) (h : N < 2 ^ 63) :
     fOf N = fN N ∧ qOf N = qN N :=
   ⟨fOf_eq N h0 (by omega), qOf_eq N h⟩
+
+/- Full strength would be `∀ N < 2^64, 0 < N → N + fOf N < 2 * qOf N`. It is FALSE for the code as
+it is: `q` multiplies before dividing. Known finding
+`quorum-threshold-wraps-for-total-power-ge-2^63`; witness: -/
+theorem quorum_intersection_fails_at_2_63 : ¬ (2 ^ 63 + fOf (2 ^ 63) < 2 * qOf (2 ^ 63)) := by
+  rw [qOf_wraps]; omega
+
+/-- The overflow-free formula `q = N - N/3` of `proposed-fixes/C12-quorum-overflow.diff` equals
+`ceil(2N/3)` on the whole 64-bit range. -/
+theorem quorum_fixed_formula_correct (N : Nat) (h : N < 2 ^ 64) :
+    (qUFix (UInt64.ofNat N)).toNat = qN N :=
+  qUFix_eq N h
+
+/-- Weighted quorum intersection: with Byzantine power at most `f`, two validator sets of power at
+least `q` share a CORRECT validator. -/
+theorem weighted_quorums_share_correct_validator (E : AEnv) (wf : E.WF) (h : Height)
+    (P Q : Addr → Prop) (hP : qN (E.N h) ≤ E.wsum h P) (hQ : qN (E.N h) ≤ E.wsum h Q) :
+    ∃ a, a ∈ E.vals ∧ P a ∧ Q a ∧ ¬ E.byz a :=
+  quorum_intersect E h wf P Q hP hQ
+
+/-! ## Abstract: agreement and validity for all schedules and Byzantine behaviours -/
+
+/-- **Agreement.** In every reachable state of the abstract system — any interleaving of the
+correct processes' transitions, timeouts and round changes at arbitrary moments, Byzantine
+validators of total power `≤ f` behaving arbitrarily (they are counted in every quorum as having
+sent every message) — two correct processes that decided at the same height decided the same
+value. -/
+theorem agreement (E : AEnv) (wf : E.WF) (h0 : Addr → Height) (s : Sys) (hr : Reach E h0 s)
+    (p p' : Addr) (hp : ¬ E.byz p) (hp' : ¬ E.byz p') (h : Height) (v v' : Val)
+    (hd : s.hist.decision p h v) (hd' : s.hist.decision p' h v') : v = v' :=
+  agreement_of_inv E wf s (inv_reach E h0 s hr) p p' hp hp' h v v' hd hd'
+
+/-- **Validity.** Every value decided by a correct process was judged valid by the application and
+was proposed for some round `r` by that round's proposer (if the proposer is correct it really
+broadcast that proposal; a Byzantine proposer may have shown it to anybody). A quorum of
+precommits for it exists in `r`. -/
+theorem decided_was_proposed_and_valid_abstract (E : AEnv) (h0 : Addr → Height) (s : Sys)
+    (hr : Reach E h0 s) (p : Addr) (hp : ¬ E.byz p) (h : Height) (v : Val)
+    (hd : s.hist.decision p h v) :
+    E.valid v = true ∧ ∃ r, PCQuorum E s.hist h r v ∧
+      (E.byz (E.proposer h r) ∨ s.hist.proposal (E.proposer h r) h r v) := by
+  obtain ⟨r, a, b, c⟩ := (inv_reach E h0 s hr p hp).decided h v hd
+  exact ⟨b, r, a, c⟩
+
+/-- A correct process sends at most one prevote and at most one precommit per height and round. -/
+theorem one_vote_per_round_abstract (E : AEnv) (h0 : Addr → Height) (s : Sys) (hr : Reach E h0 s)
+    (p : Addr) (hp : ¬ E.byz p) (h : Height) (r : Round) (id id' : Option Val) :
+    (s.hist.prevote p h r id → s.hist.prevote p h r id' → id = id') ∧
+    (s.hist.precommit p h r id → s.hist.precommit p h r id' → id = id') :=
+  ⟨(inv_reach E h0 s hr p hp).pv_unique h r id id', (inv_reach E h0 s hr p hp).pc_unique h r id id'⟩
+
+/-- A correct process that precommitted `v` in round `r` prevotes another value `v'` in a later
+round `r'` only if a polka for `v'` exists in some round `vr` with `r ≤ vr < r'` (lock rule). -/
+theorem lock_respected_abstract (E : AEnv) (h0 : Addr → Height) (s : Sys) (hr : Reach E h0 s)
+    (p : Addr) (hp : ¬ E.byz p) (h : Height) (r r' : Round) (v v' : Val)
+    (hpv : s.hist.prevote p h r' (some v')) (hpc : s.hist.precommit p h r (some v))
+    (hlt : r < r') (hne : v ≠ v') : ∃ vr, r ≤ vr ∧ vr < r' ∧ Polka E s.hist h vr v' :=
+  (inv_reach E h0 s hr p hp).unlock h r r' v v' hpv hpc hlt hne
+
+/-! ## Exec: the executable transcription of juno's state machine
+
+`Disciplined env m ins`: the input sequence obeys the protocol of `driver.listen` — a timeout is
+only delivered to a started height (`ProcessStart` is called right after construction and right
+after every commit, before anything else). Everything else is arbitrary: any messages from any
+senders for any heights and rounds, duplicated, reordered, timeouts of any (height, round, step),
+start rounds of any value. -/
+
+/-- **One vote per round.** For every disciplined input sequence the machine broadcasts at most one
+prevote and at most one precommit per (height, round): the lists of (height, round) slots of all
+prevotes, resp. precommits, emitted during the whole run have no duplicates. -/
+theorem no_double_vote (env : Env) (node : Addr) (h0 : Height) (ins : List Input)
+    (hd : Disciplined env (Machine.new env node h0) ins) :
+    (pvSlots ((Machine.new env node h0).run env ins).2).Nodup ∧
+    (pcSlots ((Machine.new env node h0).run env ins).2).Nodup :=
+  run_no_double_vote env node h0 ins hd
+
+/- The discipline cannot be dropped (robustness lead, see notes/C12.md): `ProcessTimeout` does not
+check `isHeightStarted`, so a timeout delivered between a commit and `ProcessStart` runs the rules
+on the unstarted height, and `ProcessStart` later resets round and step. Witness on the model (the
+same inputs give the same actions on the real state machine, see the harness' `lead` case):
+validator 3 prevotes `8` AND `nil` in (height 0, round 0). -/
+theorem timeout_before_start_breaks_one_vote :
+    Action.bcastPrevote ⟨0, 0, 3, some 8⟩ ∈ ((Machine.new exEnv 3 0).run exEnv exUndisciplined).2 ∧
+    Action.bcastPrevote ⟨0, 0, 3, none⟩ ∈ ((Machine.new exEnv 3 0).run exEnv exUndisciplined).2 := by
+  decide
+
+/-- **Lock rule.** Every prevote broadcast in a disciplined run was emitted in a machine state
+`m1` (state at the moment of emission) with `step = propose`, carries `m1`'s height, round and
+address, and satisfies the guard of lines 22–33 (`PrevoteGuardX`): a non-nil prevote is for the
+valid value of the stored proposal of the current round, and the machine is not locked, or locked
+on that value, or — the unlock condition of line 28 — the proposal's valid round `vr` satisfies
+`lockedRound ≤ vr < round` and the vote counter holds `2f+1` prevotes for the value in `vr`. -/
+theorem lock_respected (env : Env) (node : Addr) (h0 : Height) (ins : List Input)
+    (hd : Disciplined env (Machine.new env node h0) ins) (v : Vote)
+    (hv : Action.bcastPrevote v ∈ ((Machine.new env node h0).run env ins).2) :
+    ∃ m1 m2, EmittedAt env (Machine.new env node h0) ((Machine.new env node h0).run env ins).1
+        ((Machine.new env node h0).run env ins).2 (.bcastPrevote v) m1 m2 ∧
+      v = ⟨m1.state.height, m1.state.round, m1.nodeAddr, v.id⟩ ∧ m1.state.step = .propose ∧
+      PrevoteGuardX env m1 v.id := by
+  obtain ⟨m1, m2, hem⟩ := run_emitted env node h0 ins hd _ hv
+  obtain ⟨pre, mic, post, h1, h2, h3, h4, h5, h6⟩ := hem
+  exact ⟨m1, m2, ⟨pre, mic, post, h1, h2, h3, h4, h5, h6⟩, micro_prevote env m1 m2 mic h2 v h4⟩
+
+/-- Every non-nil precommit was emitted with `step = prevote`, for the valid value of the stored
+proposal of the current round, with `2f+1` prevotes for it in the vote counter (line 36), and the
+machine is locked on it afterwards (lines 38–39). -/
+theorem precommit_justified (env : Env) (node : Addr) (h0 : Height) (ins : List Input)
+    (hd : Disciplined env (Machine.new env node h0) ins) (v : Vote)
+    (hv : Action.bcastPrecommit v ∈ ((Machine.new env node h0).run env ins).2) :
+    ∃ m1 m2, EmittedAt env (Machine.new env node h0) ((Machine.new env node h0).run env ins).1
+        ((Machine.new env node h0).run env ins).2 (.bcastPrecommit v) m1 m2 ∧
+      v = ⟨m1.state.height, m1.state.round, m1.nodeAddr, v.id⟩ ∧ m1.state.step = .prevote ∧
+      (∀ w, v.id = some w →
+        (∃ p, m1.vc.getProposal m1.state.round = some p ∧ p.value = w ∧ env.valid w = true) ∧
+        m1.vc.hasQuorumForVote m1.state.round .prevote (some w) = true ∧
+        m2.state.lockedValue = some w ∧ m2.state.lockedRound = m1.state.round) := by
+  obtain ⟨m1, m2, hem⟩ := run_emitted env node h0 ins hd _ hv
+  obtain ⟨pre, mic, post, h1, h2, h3, h4, h5, h6⟩ := hem
+  exact ⟨m1, m2, ⟨pre, mic, post, h1, h2, h3, h4, h5, h6⟩, micro_precommit env m1 m2 mic h2 v h4⟩
+
+/-- **Validity of decisions (Exec).** Every committed proposal `p` was, at the moment of the
+commit, the proposal stored in the vote counter for its round (so it passed `AddProposal`: it is
+the first proposal seen for that round and its sender is the round's proposer), is for the
+machine's current height, is valid for the application, has `2f+1` precommits for its id in its
+round, and the machine moves to the next height. -/
+theorem decided_was_proposed_and_valid (env : Env) (node : Addr) (h0 : Height) (ins : List Input)
+    (hd : Disciplined env (Machine.new env node h0) ins) (p : Proposal)
+    (hv : Action.commit p ∈ ((Machine.new env node h0).run env ins).2) :
+    ∃ m1 m2, EmittedAt env (Machine.new env node h0) ((Machine.new env node h0).run env ins).1
+        ((Machine.new env node h0).run env ins).2 (.commit p) m1 m2 ∧
+      m1.vc.getProposal p.round = some p ∧ env.valid p.value = true ∧
+      m1.vc.hasQuorumForVote p.round .precommit (some p.value) = true ∧
+      p.height = m1.state.height ∧ p.sender = env.proposer p.height p.round ∧
+      m2.state.height = m1.state.height + 1 := by
+  obtain ⟨m1, m2, hem⟩ := run_emitted env node h0 ins hd _ hv
+  obtain ⟨pre, mic, post, h1, h2, h3, h4, h5, h6⟩ := hem
+  exact ⟨m1, m2, ⟨pre, mic, post, h1, h2, h3, h4, h5, h6⟩, micro_commit env m1 m2 mic h2 p h4⟩
+
+/-- The model's rule loop carries a fuel of 16 firings; it is never used up (each continuing rule
+firing decreases a measure bounded by 11), so the model's `processLoop` is the Go loop and the Go
+loop terminates. -/
+theorem loop_fuel_enough (env : Env) (rr : Option Round) (m : Machine) (acc : List Action) :
+    (Machine.processLoopAux env rr loopFuel m acc).2.2 = true :=
+  loop_fuel_enough' env rr m acc
+
+/-- **Exec refines Abstract, step 1**: every disciplined run of the executable machine is a chain
+of micro-steps (`XMicro`), each of which is one of: nothing visible to the algorithm (bookkeeping,
+WAL, timers), a proposal, start of a height, a move to a higher round, a prevote under the guard of
+lines 22–33, a nil precommit, a precommit of a value under the guard of line 36, a commit under the
+guard of line 49 — with the guards evaluated on the machine's own vote counter. -/
+theorem exec_run_is_micro_chain (env : Env) (node : Addr) (h0 : Height) (ins : List Input)
+    (hd : Disciplined env (Machine.new env node h0) ins) :
+    XChain env (Machine.new env node h0) ((Machine.new env node h0).run env ins).2
+      ((Machine.new env node h0).run env ins).1 :=
+  (run_chain env ins _ (new_MInv env node h0) hd).1
+
+/-- **Exec refines Abstract, step 2** (partial: `VCSound` is a hypothesis). Every micro-step of the
+machine of a correct validator `p = m.nodeAddr` is a transition of `p` in the abstract system (or
+leaves the abstract state unchanged), keeps `p`'s abstract local state equal to the machine's
+Tendermint variables, does not touch other processes, and records every broadcast / decision in the
+global history — provided the vote counter is sound w.r.t. the global history (`VCSound`: quorums
+it reports are quorums of sent-or-Byzantine messages, stored proposals were sent or come from a
+Byzantine proposer).
+MISSING for the unconditional statement: deriving `VCSound` from the ballot bookkeeping of
+`votecounter` (tally = sum of the powers of the DISTINCT senders of the matching received votes;
+power 0 for non-validators) and from authenticity of the network. The harness checks exactly this
+at run time with independent bookkeeping (`precommit-without-prevote-quorum`,
+`commit-without-precommit-quorum`, `prevote-against-lock`). -/
+theorem exec_refines_abstract_partial (E : AEnv) (env : Env) (s : Sys) (m m' : Machine) (a : List Action)
+    (hv : E.valid = env.valid) (hp : E.proposer = env.proposer)
+    (hb : ¬ E.byz m.nodeAddr) (hloc : s.loc m.nodeAddr = absL m)
+    (hsound : VCSound E s m) (hm : XMicro env m a m') (sc : SC m m') (hr : 0 ≤ m'.state.round) :
+    ∃ s', (s' = s ∨ Abs.Step E s s') ∧ s'.loc m.nodeAddr = absL m' ∧ m'.nodeAddr = m.nodeAddr ∧
+      (∀ q, q ≠ m.nodeAddr → s'.loc q = s.loc q) ∧ s.hist.le s'.hist ∧ Recorded a m.nodeAddr s'.hist :=
+  micro_refines E env s m m' a hv hp hb hloc hsound hm sc hr
+
+/-! ## non-vacuity -/
+
+-- a disciplined run of the model that locks, commits and starts the next height
+example : Disciplined exEnv (Machine.new exEnv 1 0) exDisciplined := by
+  simp only [exDisciplined, Disciplined, InputOK, and_true, true_and]; decide
+example : Action.commit ⟨0, 0, 0, -1, 8⟩ ∈ ((Machine.new exEnv 1 0).run exEnv exDisciplined).2 := by decide
+example : Action.bcastPrecommit ⟨0, 0, 1, some 8⟩ ∈ ((Machine.new exEnv 1 0).run exEnv exDisciplined).2 := by
+  decide
+example : Action.bcastPrevote ⟨1, 0, 1, some 400⟩ ∈ ((Machine.new exEnv 1 0).run exEnv exDisciplined).2 := by
+  decide
+-- thresholds
+example : fN 4 = 1 ∧ qN 4 = 3 ∧ fN 7 = 2 ∧ qN 7 = 5 ∧ fN 10 = 3 ∧ qN 10 = 7 := by decide
 
 end Juno.C12.Props
